@@ -22,7 +22,7 @@ from mc.report import Report
 
 LEVEL = "model_checking"
 RULE = ("BFS over action sequences {construct a context manager now and enter it later (once per history), enter one of 4 contexts (auto_checkpoint(p1,every=1), auto_checkpoint(p2,every=2,"
-        "save_config=False), enable_pool(close_pool=True), enable_pool(close_pool=False, parallelize_prior=True), enable_pool(one pool object shared by all such contexts, close_pool=False)), a refused entry (parallelize_prior=True with a prior that takes no map function), leave the "
+        "save_config=False), enable_pool(close_pool=True), enable_pool(close_pool=False, parallelize_prior=True), enable_pool(one pool object shared by all such contexts, close_pool=False)), a refused entry (parallelize_prior=True with a prior that takes no map function), a pool context whose pool fails in close() / join() on the way out, leave the "
         "innermost context normally, sample inside the body (real importance run), raise Exception-subclass, raise "
         "KeyboardInterrupt} with nesting depth <=3 (quick) / 4 (thorough) and <=5/7 actions; abstract state = (context stack, "
         "likelihood/prior wrapping depth, checkpoint-defaults content or ABSENT, per-pool close/join counters, sampled flag, "
@@ -255,6 +255,33 @@ class World:
 
     tried_refused = False
 
+    def failing_close(self, where):
+        """A pool context (close_pool=True) whose pool fails while it is being shut down (close() or join() raises - a dead
+        worker, Ctrl-C while join blocks, an executor without close()): the failure propagates, and the instance is exactly
+        as it was before the context was entered."""
+
+        class FailingPool(FakePool):
+            def close(self):
+                FakePool.close(self)
+                if where == "close":
+                    raise RuntimeError("pool.close failed")
+
+            def join(self):
+                FakePool.join(self)
+                if where == "join":
+                    raise KeyboardInterrupt()
+
+        snap = self.snapshot()
+        pool = FailingPool("failing")
+        try:
+            with self.a.enable_pool(pool, close_pool=True):
+                pass
+        except (RuntimeError, KeyboardInterrupt):
+            pass
+        else:
+            self.problems.append((f"failure-of-pool-{where}-swallowed", None))
+        self.same(snap, f"exit-with-failing-pool-{where}")
+
     def sample(self):
         try:
             self.a.sample_posterior(n_samples=4, sampler="importance")
@@ -315,6 +342,8 @@ def build_world(hist, tmpdir):
             w.sample()
         elif a[0] == "failed-entry":
             w.failed_entry()
+        elif a[0] == "failing-close":
+            w.failing_close(a[1])
     w.finish_checks()
     return w
 
@@ -341,6 +370,8 @@ def run_bfs(arg):
                 acts += [("prepare", c) for c in ("P1", "A1")]
             if len(w.entered) <= 1 and not any(e["ctx"] == "P2" for e in w.entered):
                 acts.append(("failed-entry",))  # leaves the state as it is (a self-loop of the search) unless something is not put back
+                acts.append(("failing-close", "close"))  # self-loops as well
+                acts.append(("failing-close", "join"))
             if w.entered:
                 acts.append(("exit",))
                 acts.append(("raise", "Exception"))
